@@ -113,3 +113,10 @@ def run(prog: Program, res: Result, tier: str) -> None:
     iso.check_stereo_index(prog, res)
     iso.check_main_loop(prog, res)
     check_role_feas(prog, res)
+    # "every stereodescriptor up to its symmetry": the symmetry tables the
+    # descriptor comparison uses must be the rotation groups (C04's theorem)
+    from . import C04
+    from .common import merge_rules
+    tmp = Result(res.prop)
+    C04.check_tables(prog, tmp)
+    merge_rules(res, tmp, ("T-ROT", "T-INV"))
